@@ -39,7 +39,7 @@ from vp.ref import dyn
 
 PROPERTY = "C11"
 RULE = (
-    "Hypothesis draws a mass pair (equal | independent in 10^[-3,1]^2, ratio up to 1e4 | nearly equal) and s "
+    "Hypothesis draws how the classes are constructed (positionally | by keyword in five orders) and a mass pair (equal | independent in 10^[-3,1]^2, ratio up to 1e4 | nearly equal) and s "
     "*relative to a landmark*: 0, (m1-m2)^2, (m1+m2)^2 with signed relative offsets 10^[-12,0], exactly on a "
     "landmark, or asymptotic +-10^[1,6]*(m1+m2)^2; or (mode continuity) an equal-mass pair probed at "
     "thr*(1+-eps), eps=1e-4..1e-10. Non-trivial: at least one relational clause was actually decided at the "
@@ -106,8 +106,11 @@ def _point():
 
 
 def strategy(tier):
-    point = st.fixed_dictionaries({"mode": st.just("point"), "masses": _masses(), "s": _point()})
-    cont = st.fixed_dictionaries({"mode": st.just("continuity"), "lm1": _mexp(-3, 1)})
+    construction = st.sampled_from(["positional", "positional", "positional", *CONSTRUCTIONS])
+    point = st.fixed_dictionaries({
+        "mode": st.just("point"), "masses": _masses(), "s": _point(), "construction": construction,
+    })
+    cont = st.fixed_dictionaries({"mode": st.just("continuity"), "lm1": _mexp(-3, 1), "construction": construction})
     return st.sampled_from(range(20)).flatmap(lambda k: cont if k >= 18 else point)
 
 
@@ -128,12 +131,37 @@ def fixed_cases(tier):
         {"mode": "point", "masses": un, "s": {"at": "asym", "side": -1, "loff": 3.0}},
         {"mode": "continuity", "lm1": 0.0},
         {"mode": "continuity", "lm1": -3.0},
+        *[{"mode": "point", "masses": un, "s": {"at": "thr", "side": 1, "loff": 0.0}, "construction": c}
+          for c in CONSTRUCTIONS],
     ]
 
 
 # ----------------------------------------------------------------------- code under test
-@lru_cache(maxsize=1)
-def _functions():
+# how the expression classes are constructed: positionally or by keyword in some order (the SymPy args of an
+# `@unevaluated` class must not depend on it)
+CONSTRUCTIONS = {
+    "positional": None,
+    "kw_s_m1_m2": ("s", "m1", "m2"),
+    "kw_m1_m2_s": ("m1", "m2", "s"),
+    "kw_m2_s_m1": ("m2", "s", "m1"),
+    "kw_m1_s_m2": ("m1", "s", "m2"),
+    "pos_s_kw_m2_m1": ("m2", "m1"),
+}
+_CONSTRUCTION = "positional"
+
+
+def _construct(cls, construction, s, m1, m2):
+    order = CONSTRUCTIONS[construction]
+    if order is None:
+        return cls(s, m1, m2)
+    values = {"s": s, "m1": m1, "m2": m2}
+    if len(order) == 2:
+        return cls(s, **{k: values[k] for k in order})
+    return cls(**{k: values[k] for k in order})
+
+
+@lru_cache(maxsize=8)
+def _functions(construction="positional"):
     import sympy as sp  # noqa: PLC0415
     from ampform.dynamics import phasespace as ps  # noqa: PLC0415
 
@@ -141,13 +169,13 @@ def _functions():
     out = {}
     for name in ("BreakupMomentumSquared", *VARIANTS):
         cls = getattr(ps, name)
-        expr = under_test(f"{name}.doit", lambda c=cls: c(s, m1, m2).doit())
+        expr = under_test(f"{name}.doit", lambda c=cls: _construct(c, construction, s, m1, m2).doit())
         out[name] = under_test(f"{name}.lambdify", sp.lambdify, (s, m1, m2), expr, "numpy")
     return out
 
 
 def _eval(name: str, s: float, m1: float, m2: float) -> complex:
-    fn = _functions()[name]
+    fn = _functions(_CONSTRUCTION)[name]
     arr = np.array([s], dtype=np.complex128)
     with np.errstate(all="ignore"):
         val = under_test(f"{name}()", fn, arr, m1, m2)
@@ -193,6 +221,14 @@ def _fin(x: complex) -> bool:
 
 # ----------------------------------------------------------------------- the case
 def run_case(desc) -> Result:
+    global _CONSTRUCTION  # noqa: PLW0603
+    _CONSTRUCTION = desc.get("construction", "positional")
+    res = _run_case(desc)
+    res.labels.append(f"construction={_CONSTRUCTION}")
+    return res
+
+
+def _run_case(desc) -> Result:
     if desc["mode"] == "continuity":
         return _continuity(desc)
     m1, m2 = _mass_pair(desc["masses"])
